@@ -281,3 +281,84 @@ Proof.
   eapply Qle_trans; [|exact B6]. apply Qle_lteq. right. apply Qabs_wd.
   unfold price_on_days. fold A. rewrite <- PrA, <- PrB, <- QA, <- QB. reflexivity.
 Qed.
+
+(* ------------------------------------------------------------ Part E: the cumulated cells of the report *)
+
+Lemma tiles_last_end : forall ps s e, tiles s e ps -> In e (map p_end ps).
+Proof.
+  induction ps as [|p ps IH]; intros s e H; [destruct H|]. cbn [tiles] in H. destruct H as (_ & _ & Hrest).
+  destruct ps as [|p2 ps]; [left; exact Hrest|right; exact (IH _ _ Hrest)].
+Qed.
+
+Lemma lsum_scale_r {A} (f : A -> Q) (k : Q) l : lsum (fun x => f x * k) l == lsum f l * k.
+Proof. unfold LedgerProofs.qsum. induction l as [|x l IH]; cbn [fold_right]; [ring|]. rewrite IH. ring. Qed.
+
+(* the cells of account a under commodity c, cumulated over the columns up to col, hold the values
+   posted inside [window start, col] *)
+Theorem cum_cell_window cfg ds r part V :
+  bc_valuation cfg = Some V ->
+  balance_report cfg ds = COk (r, part) ->
+  exists dl dsP dsV,
+    parse_directives ds = MOk dl /\
+    new_partition (clip (mkPeriod (bc_from cfg) (bc_to cfg)) (journal_period dl)) (bc_interval cfg) (bc_last cfg) = POk part /\
+    valued_run cfg V dl part dsP dsV /\
+    (postings_syntactic dl ->
+     forall a c col, account_ok a = true -> is_AL a = true -> shows_account cfg a -> cfg_where cfg a c = true ->
+       (p_start (span part) <= p_end (span part))%Z -> In col (end_dates part) ->
+       cum_cell a c part col r ==
+       lsum (fun dp => if in_window (p_start (span part)) col (fst dp) then cval a c dp else 0) (dposts dsV)).
+Proof.
+  intros Hv H. destruct (valued_report_cells cfg ds r part V Hv H) as (dl & dsP & dsV & Ep & Epart & Hrun & Hcells).
+  exists dl, dsP, dsV. split; [exact Ep|]. split; [exact Epart|]. split; [exact Hrun|].
+  intros Hsyn a c col Ha HAL Hsh Hw Hspan Hcol.
+  destruct (partition_facts _ _ _ _ Epart) as [_ Htiles]. destruct (Htiles Hspan) as [Ht Hfs].
+  pose proof (tiles_ends_sorted _ _ _ Ht) as Hsorted.
+  destruct (tiles_end_ge _ _ _ Ht) as [Hends _].
+  pose proof (tiles_last_end _ _ _ Ht) as HE.
+  unfold cum_cell, end_dates.
+  transitivity (lsum (fun e => lsum (fun dp => (if in_span (span part) (fst dp) then cval a c dp else 0)
+                                               * (if (e <=? col)%Z && in_col (periods part) e (fst dp) then 1 else 0)) (dposts dsV))
+                     (map p_end (periods part))).
+  { apply LedgerProofs.qsum_ext. intros e _. destruct (e <=? col)%Z eqn:E.
+    - rewrite (Hcells Hsyn a c e Ha HAL Hsh Hw). apply LedgerProofs.qsum_ext. intros dp _.
+      destruct (in_span (span part) (fst dp)), (in_col (periods part) e (fst dp)); cbn [andb]; ring.
+    - symmetry. apply LedgerProofs.qsum_zero. intros dp _. cbn [andb]. ring. }
+  rewrite qsum_swap. apply LedgerProofs.qsum_ext. intros [d p] _. cbn [fst].
+  rewrite qsum_scale.
+  unfold in_span, in_window. destruct (p_start (span part) <=? d)%Z eqn:E1; cbn [andb]; [|ring].
+  assert (Hcole : (col <= p_end (span part))%Z).
+  { rewrite Forall_forall in Hends. apply in_map_iff in Hcol. destruct Hcol as (q & <- & Hq). exact (Hends _ Hq). }
+  destruct (d <=? p_end (span part))%Z eqn:E2.
+  - rewrite (cum_indicator (periods part) col d (p_end (span part)) Hsorted Hcol Hends HE) by lia.
+    destruct (d <=? col)%Z; ring.
+  - replace (d <=? col)%Z with false by lia. ring.
+Qed.
+
+(* the window on the report, with quantities and prices of the builder's days *)
+Theorem windowed_report_days cfg ds r part V :
+  bc_valuation cfg = Some V ->
+  balance_report cfg ds = COk (r, part) ->
+  exists dl,
+    parse_directives ds = MOk dl /\
+    new_partition (clip (mkPeriod (bc_from cfg) (bc_to cfg)) (journal_period dl)) (bc_interval cfg) (bc_last cfg) = POk part /\
+    (postings_syntactic dl ->
+     forall a c col, account_ok a = true -> is_AL a = true -> shows_account cfg a -> cfg_where cfg a c = true -> c <> V ->
+       (p_start (span part) <= p_end (span part))%Z -> In col (end_dates part) ->
+       let days := built_days (bc_close cfg) dl part in
+       let W := p_start (span part) in
+       Qabs (cum_cell a c part col r
+             - (qty_on_days a c days col * price_on_days V c days col
+                - qty_on_days a c days (W - 1) * price_on_days V c days (W - 1)))
+         <= inject_Z (day_steps a c days (W - 1) col) * eps8).
+Proof.
+  intros Hv H. destruct (cum_cell_window cfg ds r part V Hv H) as (dl & dsP & dsV & Ep & Epart & (sP & sV & EP & EV) & Hcum).
+  exists dl. split; [exact Ep|]. split; [exact Epart|].
+  intros Hsyn a c col Ha HAL Hsh Hw Hcv Hspan Hcol days W.
+  rewrite (Hcum Hsyn a c col Ha HAL Hsh Hw Hspan Hcol).
+  assert (Hle : (W - 1 <= col)%Z).
+  { destruct (partition_facts _ _ _ _ Epart) as [_ Htiles]. destruct (Htiles Hspan) as [Ht Hfs].
+    destruct (tiles_facts _ _ _ Ht) as [_ Hb]. rewrite Forall_forall in Hb.
+    apply in_map_iff in Hcol. destruct Hcol as (q & <- & Hq). specialize (Hb _ Hq). unfold W. lia. }
+  apply (window_stage V a c days W col sP dsP sV dsV Ha HAL Hcv
+           (built_days_sorted _ _ _) (built_days_dated _ _ _) (built_days_in_ok' _ ds dl part Ep Hsyn) Hle EP EV).
+Qed.
